@@ -64,3 +64,19 @@ pub fn field_hash(i: usize, salt: u64, width: usize) -> u128 {
     let hi = x.wrapping_mul(0x94D0_49BB_1331_11EB) ^ (x >> 17);
     ((hi as u128) << 64 | x as u128) & mask128(width)
 }
+
+/// Runs `f` inside a rayon pool of `threads` threads (0 = the global pool):
+/// the number of leaves a parallel iterator is split into depends on it.
+/// The calling thread blocks in `install`, so `cx` stays exclusively borrowed.
+pub fn in_pool<T: Send>(cx: &mut engine::Ctx, threads: usize, f: impl FnOnce(&mut engine::Ctx) -> T + Send) -> T {
+    if threads == 0 {
+        return f(cx);
+    }
+    struct P(*mut engine::Ctx);
+    unsafe impl Send for P {}
+    let p = P(cx as *mut engine::Ctx);
+    rayon::ThreadPoolBuilder::new().num_threads(threads).build().expect("rayon pool").install(move || {
+        let p = p;
+        f(unsafe { &mut *p.0 })
+    })
+}
